@@ -812,6 +812,7 @@ def c19(ctx):
         cases_with_a_key_in_several_tables=n("cases_multi_table_key"), cases_with_live_wal=n("cases_wal_nonempty"),
         cases_where_file_numbers_contradict_sequence_order=n("cases_misordered"),
         cases_with_known_finding_shape_observed=n("cases_f4_observed"),
+        cases_with_14_or_more_mutually_overlapping_tables_at_repair=n("cases_with_many_pinned_tables_before_close"),
         templates=dict(f4=n("template_f4"), tombstone=n("template_tomb"), snapshot_pinned=n("template_snap")))
     return runner.finish(
         "C19", "exploration", ctx.tier, ctx.seed, ctx.t0, agg,
@@ -823,7 +824,8 @@ def c19(ctx):
              "misordered?, wal?) states",
         evaluations=n("cases"), distinct_nontrivial=agg.d("c19_state"), extras=extras,
         floors=dict(cases=(n("cases"), 100), misordered=(n("cases_misordered"), 10),
-                    multi_table_and_wal=(n("cases_multi_table_and_wal"), 10), followups=(n("followups"), 50)),
+                    multi_table_and_wal=(n("cases_multi_table_and_wal"), 10), followups=(n("followups"), 50),
+                    many_tables=(n("cases_with_many_pinned_tables_before_close"), 8)),
         assumptions=["expected contents are derived with harness/refcodec.c from the files that survive",
                      "repair is given the same comparator/options the database was created with"])
 
